@@ -6,6 +6,7 @@ harness) + Generated/Xorwow.lean (jump tables and constants regenerated from the
 -/
 import CelerVerif.Lemmas.XorwowDiscard
 import CelerVerif.Lemmas.XorwowOrder
+import CelerVerif.Lemmas.XorwowSeed
 
 namespace CelerVerif.Xorwow
 open CelerVerif.Generated.Xorwow
@@ -100,6 +101,21 @@ theorem reseed_streams_disjoint (s : State) (hs : s.xs ≠ XS.zero)
   obtain ⟨rfl, rfl⟩ := reseedIndex_injective hi hi' hb1 hb2 h
   exact hne rfl
 
+/-- ★ C13.4' the statement for the states `reseed_rng` really produces, with no hypothesis on
+    the seed: for every 32-bit seed, two different (event, slot) pairs (whose subsequence
+    index does not wrap) are initialised to states whose next 2^67 draws never coincide. -/
+theorem reseed_streams_disjoint_all_seeds (seed : Nat)
+    {e e' size i i' a b : Nat} (hi : i < size) (hi' : i' < size)
+    (hb1 : e * size + i < 2 ^ 64) (hb2 : e' * size + i' < 2 ^ 64)
+    (hne : (e, i) ≠ (e', i')) (ha : a < 2 ^ 67) (hb : b < 2 ^ 67) :
+    (stepN a (init seed (reseedIndex e size i) 0)).xs
+      ≠ (stepN b (init seed (reseedIndex e' size i') 0)).xs := by
+  have h0 : ∀ s : State, discard 0 s = s := by
+    intro s; rw [discard_eq_draws 0 (by decide)]; rfl
+  unfold init
+  rw [h0, h0]
+  exact reseed_streams_disjoint (seedState seed) (seedState_nonzero seed) hi hi' hb1 hb2 hne ha hb
+
 /-- ★ C13.5 canonical reals: the integer that `GenerateCanonical32<double>` scales by 2^-53
     is below 2^53, so the value n·2^-53 is exactly representable and lies in [0, 1). -/
 theorem canonical_lt_one (u l : W) : (canonicalBits u l).toNat < 2 ^ 53 := by
@@ -126,7 +142,7 @@ theorem init_eq (seed sub off : Nat) (hs : sub < 2 ^ 64) (ho : off < 2 ^ 64) :
   rw [discard_eq_draws off ho, discardSubsequence_eq sub hs]
 
 /-! Non-vacuity: concrete states meeting the hypotheses. -/
-example : (seedState 12345).xs ≠ XS.zero := by decide
+example : (seedState 12345).xs ≠ XS.zero := seedState_nonzero 12345
 example : (discard 1000 (seedState 12345)) = stepN 1000 (seedState 12345) :=
   discard_eq_draws 1000 (by decide) _
 example : reseedIndex 3 8 5 = 29 := by decide
